@@ -67,6 +67,10 @@ pub struct TraceMonitor {
     /// k == 1: every earlier vector stays a possible current state (one parameter: nothing can
     /// be told apart by position), so only the set of vectors seen is kept
     seen1: std::collections::HashSet<u64>,
+    /// when set to the number of proposals per inner loop: the believed current scores at
+    /// each loop boundary (scores of the possible parents of the first proposal after it)
+    pub snapshot_every: Option<u64>,
+    pub snapshots: Vec<(u64, Vec<u64>)>,
 }
 
 fn ham(a: &[u64], b: &[u64]) -> usize {
@@ -95,6 +99,8 @@ impl TraceMonitor {
             zero_moves: 0,
             first_calls: vec![],
             seen1: std::collections::HashSet::new(),
+            snapshot_every: None,
+            snapshots: vec![],
         }
     }
 
@@ -162,6 +168,14 @@ impl TraceMonitor {
                 let mut p_acc = h.pending.clone();
                 p_acc.push(Decision { step: idx, accepted: true, old, new: score });
                 new.push(Hyp { v: bits.clone(), score, pending: p_acc });
+            }
+        }
+        if let Some(inner) = self.snapshot_every {
+            if inner > 0 && idx >= 1 && (idx as u64 - 1) % inner == 0 && idx > 1 {
+                let mut sc: Vec<u64> = self.hyps.iter().filter(|h| ham(&h.v, &bits) <= 1).map(|h| h.score.map(f64::to_bits).unwrap_or(u64::MAX)).collect();
+                sc.sort();
+                sc.dedup();
+                self.snapshots.push(((idx as u64 - 1) / inner, sc));
             }
         }
         if !any_parent {
